@@ -160,7 +160,7 @@ def closure_summary(F, q, a, depth):
     return None
 
 
-def evaluate(F, body, args, depth=0, steps=400):
+def evaluate(F, body, args, depth=0, steps=400, extern=None):
     """args: list of values for _1.._n. Returns the value of _0."""
     env = {}
     for i, v in enumerate(args):
@@ -182,6 +182,9 @@ def evaluate(F, body, args, depth=0, steps=400):
                 elif v[0] == 'res':
                     if p[1] != v[1]:
                         raise Undecided('downcast to a variant the value does not have')
+                elif v[0] == 'adt':
+                    if p[1] != v[2]:
+                        raise Undecided('downcast to a variant the value does not have')
                 else:
                     raise Undecided('downcast of ' + v[0])
                 continue
@@ -192,6 +195,8 @@ def evaluate(F, body, args, depth=0, steps=400):
                     v = v[2]
                 elif v[0] == 'tuple':
                     v = v[1][p[1]]
+                elif v[0] == 'adt' and p[1] < len(v[3]):
+                    v = v[3][p[1]]
                 else:
                     raise Undecided('field of ' + v[0])
                 continue
@@ -237,13 +242,15 @@ def evaluate(F, body, args, depth=0, steps=400):
                 elif 'closure' in ak:
                     val = ('closure', ak['closure'], tuple(ops))
                 else:
-                    val = ('adt', adt, ak.get('variant'), tuple(ops))
+                    val = ('adt', adt, ak.get('variant'), tuple(ops), ak.get('vi', 0))
             elif k == 'discr':
                 v = place_val(F.place(rv['pl']))
                 if v[0] == 'opt':
                     val = ('int', 0 if v[1] is None else 1)
                 elif v[0] == 'res':
                     val = ('int', 0 if v[1] == 'Ok' else 1)
+                elif v[0] == 'adt' and len(v) > 4:
+                    val = ('int', v[4])
                 else:
                     raise Undecided('discriminant of ' + v[0])
             elif k == 'bin':
@@ -298,13 +305,23 @@ def evaluate(F, body, args, depth=0, steps=400):
             if call.target is None:
                 raise Undecided('diverging call ' + call.qname)
             argv = [op_val(a) for a in call.args]
-            res = call_summary(call.qname, argv, call.gargs)
+            res = extern(call, argv) if extern is not None else None
+            if res is None and call.qname == 'std::ops::Try::branch':
+                a0 = argv[0]
+                if a0[0] == 'res':
+                    res = ('adt', 'std::ops::ControlFlow', 'Continue', (a0[2],), 0) if a0[1] == 'Ok' else ('adt', 'std::ops::ControlFlow', 'Break', (a0,), 1)
+                elif a0[0] == 'opt':
+                    res = ('adt', 'std::ops::ControlFlow', 'Continue', (a0[1],), 0) if a0[1] is not None else ('adt', 'std::ops::ControlFlow', 'Break', (a0,), 1)
+            if res is None and call.qname == 'std::ops::FromResidual::from_residual':
+                res = argv[0]
+            if res is None:
+                res = call_summary(call.qname, argv, call.gargs)
             if res is None:
                 res = closure_summary(F, call.qname, argv, depth)
             if res is None:
                 cb = F.callee_body(call)
                 if cb is not None and depth < 4:
-                    res = evaluate(F, cb, argv, depth + 1)
+                    res = evaluate(F, cb, argv, depth + 1, extern=extern)
                 else:
                     raise Undecided('no summary for ' + call.qname)
             if call.dest[1]:
